@@ -60,7 +60,9 @@ def is_number(v):
 def spec_search_matches(method_name, needle, haystack):
     th = typed(haystack)
     tn = typed(needle)
-    text = str(haystack)      # the value's own text: textual rules never see the typed value
+    # the value's own text: textual rules never see the typed value (a boolean VALUE reads True / False,
+    # also when ruamel wraps an anchored boolean in its int subclass)
+    text = str(th) if (isinstance(th, bool) and not isinstance(haystack, str)) else str(haystack)
     if method_name == "EQUALS":
         if isinstance(th, bool) and isinstance(tn, bool):
             return th == tn
